@@ -176,13 +176,19 @@ func genCompilable(g *G) *cFile {
 		m := &cMsg{name: uniq(), sender: node(), size: g.R.Intn(9)}
 		for {
 			raw := uint32(g.R.Intn(0x800))
+			forceExt := false
 			if g.R.Intn(3) == 0 {
 				raw = uint32(g.R.U64()) & 0x1fffffff
+			}
+			if g.R.Intn(6) == 0 {
+				// boundary IDs of both formats: 0 and the maxima, standard-sized IDs in the extended format
+				b := []uint32{0, 1, 0x7ff, 0x800, 0x1fffffff, 0x1ffffffe, 0x10000000}[g.R.Intn(7)]
+				raw, forceExt = b, g.R.Bool()
 			}
 			if !ids[raw] {
 				ids[raw] = true
 				m.id = raw
-				if raw > 0x7ff || g.R.Intn(4) == 0 {
+				if raw > 0x7ff || forceExt || g.R.Intn(4) == 0 {
 					m.id |= 0x80000000
 				}
 				break
